@@ -22,16 +22,14 @@ ASSUMPTIONS = ["reference interpreter: gates returned by a classical control are
                "sampled paths: support inclusion exact, chi-square rejection at p<1e-9, RNG seeded per case",
                "only the cirq backend implements mid-circuit measurement here (sympy refuses it)"]
 ANCHORS = [
-    ("tangelo/linq/target/backend.py", "113-157,706-745", "statevector projection / perform_measurement"),
-    ("tangelo/linq/target/backend.py", "225-314", "dispatch on desired results / saved measurements / shots"),
-    ("tangelo/linq/target/target_cirq.py", "96-186", "piecewise simulation with classical control"),
-    ("tangelo/linq/target/target_cirq.py", "232-260", "desired_meas_result piecewise simulation"),
+    ("tangelo/linq/target/backend.py", "collapse_statevector_to_desired_measurement,perform_measurement", "statevector projection / perform_measurement"),
+    ("tangelo/linq/target/backend.py", "simulate", "dispatch on desired results / saved measurements / shots"),
+    ("tangelo/linq/target/target_cirq.py", "simulate_circuit", "piecewise simulation with classical control"),
+    ("tangelo/linq/target/target_cirq.py", "simulate_circuit", "desired_meas_result piecewise simulation"),
     ("tangelo/linq/circuit.py", "get_unitary_circuit_pieces,generate_applied_gates", "splitting at measurement gates / replay of applied gates"),
     ("tangelo/toolboxes/post_processing/post_selection.py", "split_frequency_dict,split_frequency_dict_for_last_n_digits", "splitting joint frequencies"),
 ]
-REQUIRED = {"branch_state": 200, "branch_distribution": 200, "branch_probability": 200, "probabilities_sum_to_one": 50,
-            "mixture_equals_density_matrix": 30, "applied_gates": 50, "sampled_all_frequencies": 20, "marginals": 40,
-            "single_shot_state": 20, "generate_applied_gates": 30}
+REQUIRED = {"branch_state": 180, "branch_distribution": 180, "branch_probability": 180, "probabilities_sum_to_one": 50, "mixture_equals_density_matrix": 22, "applied_gates": 50, "sampled_all_frequencies": 20, "marginals": 40, "single_shot_state": 20, "generate_applied_gates": 30}
 BUDGET = {"quick": 240, "thorough": 2400}
 TOL = 1e-9
 
